@@ -26,8 +26,10 @@ ENCODED = ["twisted.words.protocols.irc:IRCClient._sendMessage", "twisted.words.
            "twisted.words.protocols.irc:IRCClient.notice", "twisted.words.protocols.irc:_splitEncoded",
            "twisted.words.protocols.irc:split", "twisted.words.protocols.irc:IRCClient._safeMaximumLineLength",
            "twisted.words.protocols.irc:lowQuote", "twisted.words.protocols.irc:lowDequote",
-           "twisted.words.protocols.irc:ctcpQuote", "twisted.words.protocols.irc:ctcpDequote"]
-BOUNDS = {"quick": {"m": 3, "mr": 3, "mw": 2, "q": 4, "w": 3}, "thorough": {"m": 4, "mr": 5, "mw": 4, "q": 5, "w": 5}}
+           "twisted.words.protocols.irc:ctcpQuote", "twisted.words.protocols.irc:ctcpDequote",
+           "twisted.words.protocols.irc:ctcpStringify", "twisted.words.protocols.irc:ctcpExtract"]
+BOUNDS = {"quick": {"m": 3, "mr": 3, "mw": 2, "q": 4, "w": 3, "cn": 2, "ct": 2, "cd": 2},
+          "thorough": {"m": 4, "mr": 5, "mw": 4, "q": 5, "w": 5, "cn": 3, "ct": 2, "cd": 3}}
 B = {}
 BOUNDS_TEXT = ("character classes: TAB | LF | CR | SP,VT,FF | printable ASCII except '-' | any 2-octet character "
                "U+00A1..U+07FF | any 3-octet character U+4E00..U+9FFF | any 4-octet character U+1F300..U+1FAFF.  "
@@ -36,7 +38,9 @@ BOUNDS_TEXT = ("character classes: TAB | LF | CR | SP,VT,FF | printable ASCII ex
                "from the widest character of the message up to w (3 quick, 5 thorough).  send_wide: msg() with <= mw "
                "characters (2 quick, 4 thorough) over SP/VT/FF and the 1..4-octet classes, budgets 4..w+2.  "
                "send_notice / send_default: notice() and msg(length=None) with <= 2 characters over all classes.  "
-               "Quoting: every string of <= q characters (4 quick, 5 thorough) over all of Unicode")
+               "Quoting: every string of <= q characters (4 quick, 5 thorough) over all of Unicode.  ctcp_msgs: "
+               "ctcpStringify -> ctcpExtract of 2 (thorough: 2..3) extended messages, tag of 1..2 characters (any "
+               "but SP), data None or 1..2 (thorough 1..3) characters of any kind")
 OUTSIDE = ["'-' in the message (textwrap's hyphen/em-dash break rules are not ported, so they are not explored)",
            "non-ASCII Unicode whitespace (U+0085, U+00A0, U+1680, U+2000.., U+3000, U+001C..U+001F): textwrap "
            "splits on ASCII whitespace only but strips with str.strip(); such characters can be dropped by "
@@ -312,6 +316,49 @@ def ctcp(s: str) -> bool:
     return irc.ctcpDequote(q) == s
 
 
+def _nospace(x):
+    for ch in x:
+        if ch == " ":
+            return False
+    return True
+
+
+def _ctcp_pair(tag, data, has, lt, ld):
+    """(message handed to ctcpStringify, message expected back from ctcpExtract)"""
+    tag = _fixlen(tag, lt)
+    if has:
+        data = _fixlen(data, ld)
+        return (tag, data), (tag, data)
+    return (tag, None), (tag, None)
+
+
+def ctcp_msgs(t1: str, d1: str, h1: bool, t2: str, d2: str, h2: bool, t3: str, d3: str, h3: bool, n: int) -> bool:
+    """
+    pre: 2 <= n <= B['cn']
+    pre: 1 <= len(t1) <= B['ct'] and 1 <= len(t2) <= B['ct'] and 1 <= len(t3) <= B['ct']
+    pre: _nospace(t1) and _nospace(t2) and _nospace(t3)
+    pre: 1 <= len(d1) <= B['cd'] and 1 <= len(d2) <= B['cd'] and 1 <= len(d3) <= B['cd']
+    pre: n == 3 or (len(t3) == 1 and len(d3) == 1 and not h3)
+    post: _
+    """
+    # framing of SEVERAL extended messages in one line: ctcpExtract(ctcpStringify(msgs)) gives every
+    # (tag, data) back as an extended message, in order, and nothing as normal text.  Tags: any
+    # characters but the space that separates tag and data (X_DELIM and the quote character included);
+    # data: None or any non-empty text (empty data is documented to come back as None).
+    msgs = []
+    want = []
+    items = [(t1, d1, h1), (t2, d2, h2)] + ([(t3, d3, h3)] if n == 3 else [])
+    for tg, dt, hs in items:
+        m, w = _ctcp_pair(tg, dt, hs, B['ct'], B['cd'])
+        msgs.append(m)
+        want.append(w)
+    line = irc.ctcpStringify(msgs)
+    got = irc.ctcpExtract(line)
+    api.obs((line, got))
+    cover()
+    return got["extended"] == want and got["normal"] == []
+
+
 def _first_classes(var, specials):
     out = [("ord(%s[0]) == %d" % (var, ord(ch)),) for ch in specials]
     out.append((" and ".join("ord(%s[0]) != %d" % (var, ord(ch)) for ch in specials),))
@@ -356,6 +403,9 @@ HARNESSES = [
       timeout={"quick": 90, "thorough": 1500}),
     H(ctcp, shards=lambda tier: _len_shards("s", BOUNDS[tier]["q"], ["\\", "\x01"]),
       timeout={"quick": 90, "thorough": 1500}),
+    H(ctcp_msgs, shards=lambda tier: [("n == %d" % k, "h1 == %s" % a, "h2 == %s" % c)
+                                      for k in range(2, BOUNDS[tier]["cn"] + 1) for a in (True, False) for c in (True, False)],
+      timeout={"quick": 90, "thorough": 1500}),
 ]
 
 VECTORS = {
@@ -366,6 +416,10 @@ VECTORS = {
     "send_default": [("hi",), ("a\n",), ("\n",), ("é\n",), ("",), ("\na",)],
     "too_small": [("a", 13), ("", 0), ("ab", 5)],
     "low": [("",), ("\x10",), ("\x100",), ("a\r\n\x00",), ("\x10\x10n",), ("é\x10r",)],
+    "ctcp_msgs": [("VERSION", "x", False, "PING", "12 34", True, "a", "b", False, 2),
+                  ("A", " b", True, "\x01", "\\", True, "C", "d\x01", True, 3),
+                  ("\\a", "x", False, "\\", "\x01 ", True, "Z", "z", False, 3),
+                  ("ACTION", "waves hello", True, "CLIENTINFO", "x", False, "a", "b", False, 2)],
     "ctcp": [("",), ("\\",), ("\x01",), ("\\a",), ("a\\\\\x01",), ("\\\x01a",)],
 }
 
